@@ -141,4 +141,66 @@ theorem dedupBy_eq (bombs : List Id) (v : Vec) (xs : List Id) (o : List Outcome)
     congr 2
     omega
 
+/-! ## dedup_by_key = dedup_by with the answers `key(a) == key(b)` -/
+
+/-- the observable part of a result (the unconsumed oracle is bookkeeping) -/
+def proj {α} (x : M (Out α)) : M (Vec × Exit α) := x.map (fun r => (r.vec, r.exit))
+
+theorem proj_guard {v : Vec} {r w : Nat} {e : Exit Unit} {o1 o2 : List Outcome} :
+    proj ((dedupGuard v r w).map (⟨·, e, o1⟩)) = proj ((dedupGuard v r w).map (⟨·, e, o2⟩)) := by
+  unfold proj; cases dedupGuard v r w <;> rfl
+
+theorem dedupKeyLoop_pair (bombs : List Id) (fuel : Nat) : ∀ (v : Vec) (r w : Nat) (o : List Outcome),
+    proj (dedupKeyLoop bombs fuel v r w o) = proj (dedupLoop bombs fuel v r w (pairUp o)) := by
+  induction fuel with
+  | zero => intro v r w o; simp [dedupKeyLoop, dedupLoop, proj, Except.map]
+  | succ fuel ih =>
+    intro v r w o
+    simp only [dedupKeyLoop, dedupLoop]
+    cases h1 : peek v r with
+    | error e => rfl
+    | ok a =>
+      cases h2 : peek v (w - 1) with
+      | error e => rfl
+      | ok b =>
+        simp only
+        match o with
+        | [] => simp only [pairUp] <;> first | rfl | exact proj_guard
+        | .panic :: o => simp only [pairUp] <;> first | rfl | exact proj_guard
+        | [.ret _] => simp only [pairUp] <;> first | rfl | exact proj_guard
+        | .ret _ :: .panic :: o => simp only [pairUp] <;> first | rfl | exact proj_guard
+        | .ret ka :: .ret kb :: o =>
+          simp only [pairUp]
+          by_cases hk : ka = kb
+          · simp only [hk, ↓reduceIte, ne_eq, Nat.succ_ne_zero, not_false_eq_true, Nat.add_one_ne_zero]
+            cases h3 : dropAt bombs false v r with
+            | error e => rfl
+            | ok p =>
+              obtain ⟨v1, pk⟩ := p
+              simp only
+              cases pk with
+              | true => simp only [↓reduceIte]; exact proj_guard
+              | false => simp only [Bool.false_eq_true, ↓reduceIte]; exact ih _ _ _ _
+          · simp only [hk, ↓reduceIte, ne_eq, not_true_eq_false]
+            cases h3 : copy v r w 1 with
+            | error e => rfl
+            | ok v1 => simp only; exact ih _ _ _ _
+
+theorem dedupByKey_pair (bombs : List Id) (v : Vec) (o : List Outcome) :
+    proj (dedupByKey bombs v o) = proj (dedupBy bombs v (pairUp o)) := by
+  unfold dedupByKey dedupBy
+  simp only
+  split
+  · rfl
+  · exact dedupKeyLoop_pair bombs _ v 1 1 o
+
+theorem proj_ok {α} {x y : M (Out α)} {r : Out α} (h : proj x = proj y) (hy : y = .ok r) :
+    ∃ r', x = .ok r' ∧ r'.vec = r.vec ∧ r'.exit = r.exit := by
+  subst hy
+  cases x with
+  | error e => simp [proj, Except.map] at h
+  | ok r' =>
+    simp only [proj, Except.map, Except.ok.injEq, Prod.mk.injEq] at h
+    exact ⟨r', rfl, h.1, h.2⟩
+
 end Coll
